@@ -2,6 +2,7 @@
 
    ops  enc  {h, data}   NPDU.encode            → {hex, ctl}
         dec  {hex}       NPDU.decode            → {h, data}
+        hdec {hex}       NPCI.decode (header only) → {h, rest}
         menc {h, m}      msg.encode + NPDU.encode → {hex}
         mdec {hex}       NPDU.decode + npdu_types dispatch + msg.decode → {kind, h, m|data}
         benc {m}         message body only      → {hex}
@@ -129,6 +130,11 @@ def handle (j : Json) : R Json := do
       match decodeNpdu bs with
       | .error e => pure (jErr e)
       | .ok (h, data) => pure (jOk [("h", jNpci h), ("data", jHex data)])
+  | "hdec" =>  -- NPCI.decode alone (the bare header entry point): fields + the octets left in the PDU
+      let bs ← fldHex j "hex"
+      match decodeNpci bs with
+      | .error e => pure (jErr e)
+      | .ok (h, rest) => pure (jOk [("h", jNpci h), ("rest", jHex rest)])
   | "menc" =>
       let h ← npciOfJson (← fld j "h")
       let m ← msgOfJson (← fld j "m")
